@@ -122,6 +122,13 @@ Proof. intros; nia. Qed.
 Lemma lt_pow_step x a p : x < p -> a < 128 -> x + a * p < p * 128.
 Proof. intros; nia. Qed.
 
+Lemma lor_u64 x a s p : p = 2 ^ s -> x < p -> a < 256 -> p <= 2097152 ->
+  N.lor x (u64 (N.shiftl a s)) = x + a * p.
+Proof.
+  intros -> Hx Ha Hp. rewrite u64_small by (rewrite N.shiftl_mul_pow2; apply mul_bound64; assumption).
+  apply lor_shiftl_add. assumption.
+Qed.
+
 (* the loop of binary.Uvarint agrees with the 2.2.3 algorithm as long as at most 4 bytes are looked at *)
 Lemma pow2_s7 s : 2 ^ (s + 7) = 2 ^ s * 128.
 Proof. rewrite N.pow_add_r. reflexivity. Qed.
@@ -145,22 +152,17 @@ Proof.
     destruct (b2n b <? 128) eqn:E128.
     + injection Hr as <- <- <-.
       destruct ((i =? 9) && (1 <? b2n b)) eqn:E9; [lia |].
-      rewrite N.shiftl_mul_pow2. rewrite <- Hpp. rewrite u64_small by (apply mul_bound64; assumption).
-      rewrite Hpp. rewrite <- N.shiftl_mul_pow2. rewrite lor_shiftl_add by (rewrite <- Hpp; assumption).
-      rewrite <- Hpp.
+      rewrite (lor_u64 x (b2n b) s p) by assumption.
       rewrite len_cons. repeat split; try lia.
       change (128 ^ 1) with 128. apply lt_pow_step; [assumption | lia].
     + destruct (remlen fuel (p * 128) r) as [[[v' k'] rest'] |] eqn:Er; [| discriminate].
       injection Hr as <- <- <-.
       assert (Hland : N.land (b2n b) 127 = b2n b - 128).
       { change 127 with (N.ones 7). rewrite N.land_ones. change (2 ^ 7) with 128. lia. }
-      rewrite Hland. rewrite N.shiftl_mul_pow2. rewrite <- Hpp.
-      rewrite u64_small by (apply mul_bound64; [lia | assumption]).
-      rewrite Hpp. rewrite <- N.shiftl_mul_pow2. rewrite lor_shiftl_add by (rewrite <- Hpp; assumption).
-      rewrite <- Hpp.
+      rewrite Hland. rewrite (lor_u64 x (b2n b - 128) s p) by (try assumption; lia).
       specialize (IH r (i + 1) (x + (b2n b - 128) * p) (s + 7) (p * 128) v' k' rest').
       destruct IH as (H1 & H2 & H3 & H4 & H5 & H6);
-        [lia | subst p; apply pow2_s7 | lia | apply lt_pow_step; [assumption | lia] | assumption |].
+        [lia | subst p; symmetry; apply pow2_s7 | lia | apply lt_pow_step; [assumption | lia] | assumption |].
       rewrite H1. rewrite len_cons. repeat split; try lia.
       * f_equal; lia.
       * rewrite N.pow_add_r. change (128 ^ 1) with 128. lia.
@@ -181,7 +183,7 @@ Proof.
     change (Byte.to_N b) with (b2n b) in Hr.
     destruct (b2n b <? 128) eqn:E128; [discriminate |].
     destruct (remlen fuel (p * 128) r) as [[[v' k'] rest'] |] eqn:Er; [discriminate |].
-    apply (IH r (i + 1) _ (s + 7) (p * 128)); [lia | subst p; apply pow2_s7 | lia | cbn in Hl; lia | assumption].
+    apply (IH r (i + 1) _ (s + 7) (p * 128)); [lia | subst p; symmetry; apply pow2_s7 | lia | cbn in Hl; lia | assumption].
 Qed.
 
 (* remlen looks at no more than `fuel` bytes *)
@@ -203,20 +205,31 @@ Qed.
 
 Lemma remlen_bounds fuel : forall mult buf v k rest,
   remlen fuel mult buf = Some (v, k, rest) ->
-  1 <= k /\ k <= N.of_nat fuel /\ k <= len buf /\ rest = skipn (N.to_nat k) buf /\ v < mult * 128 ^ k.
+  1 <= k /\ k <= N.of_nat fuel /\ k <= len buf /\ rest = skipn (N.to_nat k) buf.
 Proof.
   induction fuel as [| fuel IH]; intros mult buf v k rest H.
   - discriminate.
   - destruct buf as [| b r]; [discriminate |]. cbn [remlen] in H.
-    pose proof (Byte.to_N_bounded b) as Hb.
     destruct (Byte.to_N b <? 128) eqn:E.
     + injection H as <- <- <-. rewrite len_cons. repeat split; try lia.
-      change (128 ^ 1) with 128. nia.
     + destruct (remlen fuel (mult * 128) r) as [[[v' k'] rest'] |] eqn:Er; [| discriminate].
-      injection H as <- <- <-. destruct (IH _ _ _ _ _ Er) as (H1 & H2 & H3 & H4 & H5).
+      injection H as <- <- <-. destruct (IH _ _ _ _ _ Er) as (H1 & H2 & H3 & H4).
       rewrite len_cons. repeat split; try lia.
-      * subst rest'. replace (N.to_nat (k' + 1)) with (S (N.to_nat k')) by lia. reflexivity.
-      * rewrite N.pow_add_r. change (128 ^ 1) with 128. nia.
+      subst rest'. replace (N.to_nat (k' + 1)) with (S (N.to_nat k')) by lia. reflexivity.
+Qed.
+
+Lemma remlen_value fuel : forall mult buf v k rest,
+  remlen fuel mult buf = Some (v, k, rest) -> 0 < mult -> v < mult * 128 ^ k.
+Proof.
+  induction fuel as [| fuel IH]; intros mult buf v k rest H Hm.
+  - discriminate.
+  - destruct buf as [| b r]; [discriminate |]. cbn [remlen] in H.
+    pose proof (Byte.to_N_bounded b) as Hb.
+    destruct (Byte.to_N b <? 128) eqn:E.
+    + injection H as <- <- <-. change (128 ^ 1) with 128. nia.
+    + destruct (remlen fuel (mult * 128) r) as [[[v' k'] rest'] |] eqn:Er; [| discriminate].
+      injection H as <- <- <-. pose proof (IH _ _ _ _ _ Er ltac:(lia)) as H5.
+      rewrite N.pow_add_r. change (128 ^ 1) with 128. nia.
 Qed.
 
 Lemma read_varint_eq buf :
@@ -282,7 +295,7 @@ Proof.
   change (skipn (N.to_nat 1) (b0 :: r1)) with r1.
   rewrite read_varint_eq.
   destruct (remaining_length r1) as [[[rl k] after] |] eqn:Er; [| reflexivity].
-  destruct (remlen_bounds _ _ _ _ _ _ Er) as (H1 & H2 & H3 & H4 & H5).
+  destruct (remlen_bounds _ _ _ _ _ _ Er) as (H1 & H2 & H3 & H4).
   rewrite slice_from_ok by (rewrite len_cons; lia).
   replace (N.to_nat (1 + k)) with (S (N.to_nat k)) by lia.
   cbn [skipn]. rewrite <- H4. reflexivity.
@@ -305,7 +318,8 @@ Proof.
   destruct (remaining_length r1) as [[[rl' k] after] |] eqn:Er; [| discriminate].
   destruct (len after <? rl') eqn:El; [discriminate |].
   intros H. injection H as <- <- <-.
-  destruct (remlen_bounds _ _ _ _ _ _ Er) as (H1 & H2 & H3 & H4 & H5).
+  destruct (remlen_bounds _ _ _ _ _ _ Er) as (H1 & H2 & H3 & H4).
+  pose proof (remlen_value _ _ _ _ _ _ Er ltac:(lia)) as H5.
   exists b0, r1, k. subst after. rewrite len_skipn in El.
   assert (Hpow : 128 ^ k <= 128 ^ 4) by (apply N.pow_le_mono_r; lia).
   change (128 ^ 4) with 268435456 in Hpow.
@@ -333,6 +347,6 @@ Proof.
   destruct (negb _); [intros H; injection H as <-; rewrite !len_cons; lia |].
   destruct (_ && _); [intros H; injection H as <-; rewrite !len_cons; lia |].
   destruct (remaining_length _) as [[[rl k] after] |] eqn:Er; [| intros H; injection H as <-; rewrite !len_cons; lia].
-  destruct (remlen_bounds _ _ _ _ _ _ Er) as (H1 & H2 & H3 & H4 & H5).
+  destruct (remlen_bounds _ _ _ _ _ _ Er) as (H1 & H2 & H3 & H4).
   destruct (_ <? _); [| discriminate]. intros H; injection H as <-. rewrite len_cons. lia.
 Qed.
